@@ -108,10 +108,21 @@ pub fn run_strategy(portfolio: Vec<fn(F) -> F>, strategy: Strategy, formula: F) 
 pub fn cfg(rng: &mut Rng) -> g::Cfg {
     // few names; the fresh-name candidates of replacement_helper (first letter of the inner
     // variable + number) are in the pool
-    let names: Vec<&'static str> = if rng.chance(50) {
-        vec!["X", "Y", "Z", "I", "J", "I1", "J1"]
-    } else {
-        vec!["X", "Y", "Z", "I", "I1", "I2", "X1"]
+    // 12 %: the candidates I, I1, I2, I3 (and X, X1..) are all in the pool, so that the fresh-name loop of
+    // choose_fresh_variable_names has to count to a suffix >= 4; 10 %: `_`-prefixed variables (the arm
+    // repaired for finding F18: the variant is the first character AFTER the leading underscore); both are
+    // inside the image of the parser (`"_"? ~ ASCII_ALPHA_UPPER ~ ..`; audit 2, B16 / T14)
+    let names: Vec<&'static str> = match rng.weighted(&[39, 39, 12, 10]) {
+        0 => vec!["X", "Y", "Z", "I", "J", "I1", "J1"],
+        1 => vec!["X", "Y", "Z", "I", "I1", "I2", "X1"],
+        2 => {
+            if rng.chance(50) {
+                vec!["I", "I1", "I2", "I3", "Z"]
+            } else {
+                vec!["X", "X1", "X2", "X3", "I", "I1", "I2", "I3"]
+            }
+        }
+        _ => vec!["_X", "_I", "X", "I", "I1", "Z", "_I1"],
     };
     g::Cfg {
         var_names: names,
@@ -395,6 +406,17 @@ fn redex_rqd(rng: &mut Rng, c: &g::Cfg, depth: usize) -> F {
     if rng.chance(30) {
         inner_parts.push(filler(rng, c, depth));
     }
+    if rng.chance(10) {
+        // the fresh-name candidates L, L1, .., Lk (L = first letter of the inner variable after leading
+        // underscores) all occur: choose_fresh_variable_names has to count up to the suffix k+1 >= 4
+        let letter = iname.trim_start_matches('_').chars().next().unwrap_or('I');
+        let k = 3 + rng.below(4);
+        let mut terms = vec![G::Variable(letter.to_string())];
+        for j in 1..=k {
+            terms.push(G::Variable(format!("{letter}{j}")));
+        }
+        inner_parts.push(F::AtomicFormula(fol::AtomicFormula::Atom(fol::Atom { predicate_symbol: "r".to_string(), terms })));
+    }
     if rng.chance(15) {
         // a second equation that also matches (which one wins?)
         let j = rng.pick(&inner_vs).clone();
@@ -644,6 +666,31 @@ pub fn formula_outside_parser(rng: &mut Rng, rule: Option<Rule>) -> F {
     let c = cfg(rng);
     let depth = rng.below(2);
     let mut f = redex(rng, &c, depth, rule);
+    // 15 %: one quantifier block loses all its variables (`exists () F`: the grammar demands `variable+`;
+    // no rewrite of CLASSIC produces such a block and INTUITIONISTIC removes its own at once; audit 2, B16)
+    if rng.chance(15) {
+        fn blocks_mut<'a>(f: &'a mut F, out: &mut Vec<&'a mut Vec<fol::Variable>>) {
+            match f {
+                F::AtomicFormula(_) => {}
+                F::UnaryFormula { formula, .. } => blocks_mut(formula, out),
+                F::BinaryFormula { lhs, rhs, .. } => {
+                    blocks_mut(lhs, out);
+                    blocks_mut(rhs, out);
+                }
+                F::QuantifiedFormula { quantification, formula } => {
+                    out.push(&mut quantification.variables);
+                    blocks_mut(formula, out);
+                }
+            }
+        }
+        let mut bs = vec![];
+        blocks_mut(&mut f, &mut bs);
+        if !bs.is_empty() {
+            let k = rng.below(bs.len());
+            bs[k].clear();
+            return f;
+        }
+    }
     if rng.chance(75) {
         let mut cs = vec![];
         comparisons_mut(&mut f, &mut cs);
